@@ -24,6 +24,24 @@ PROPS = {
             part("v2in", "TestVerif_C01_EveryDoc", "every-document", 0, 0, shards=(4, 16), enum=True),
         ],
     },
+    "C02": {
+        "rule": "rapid-generated exact / edited / truncated / concatenated license texts and scenario files matched against full and small corpora; oracle = independent banded word-level Levenshtein between the reported token span and the named corpus document: Confidence <= 1 - L/|K| (exact float comparison), Confidence == 1 only for identical spans, StartLine/EndLine = lines of first/last word; non-trivial = at least one fuzzy match; distinct = distinct (threshold, recipe)",
+        "assumptions": ["token sequences of input and corpus documents are read white-box from the package's own tokenizer", "unknown words (id 0) never equal any word"],
+        "parts": [
+            part("v2in", "TestVerif_C02", "similarity-bound", 1600, 16000, shards=(12, 16)),
+            part("v2in", "TestVerif_C02_OracleSelfTest", "oracle-selftest", 2000, 20000, shards=(1, 1)),
+        ],
+    },
+    "C03": {
+        "rule": "rapid-generated inputs (license recipes, hostile byte/fragment mixes, both) x corpora (full, small, tiny synthetic with awkward names) x thresholds in (0,1]; oracle = the well-formedness predicate of the statement evaluated on every result; non-trivial = result has at least one match",
+        "assumptions": ["'number of lines in the input' is read as 1 + number of newline bytes (the loosest reading)", "a match with MatchType=Name=Copyright is a pseudo-match unless the corpus really holds such a document"],
+        "parts": [part("v2in", "TestVerif_C03", "well-formed", 1600, 24000, shards=(12, 16))],
+    },
+    "C07": {
+        "rule": "metamorphic: Match(P+X+S) equals Match(X) shifted by |P| tokens and lines(P) lines, for generated X (exact, noisy, truncated, multi-license) and OOV blocks P, S; premise verified at token level; non-trivial = Match(X) non-empty and |P| > 0",
+        "assumptions": ["tied matches are compared in canonical order (their relative order is C04's subject)"],
+        "parts": [part("v2in", "TestVerif_C07", "embedding", 2400, 30000, shards=(12, 16))],
+    },
     "C20": {
         "rule": "rapid-generated operation sequences interpreted against reference models (map / list) with the invariant "
                 "checked after every step, plus exhaustive small-scope enumerations; non-trivial and distinct are defined per part (see parts)",
@@ -42,7 +60,28 @@ PROPS = {
 }
 
 # texts for MANIFEST.json (level_claimed.text, level_note, technique) per claimed property
+_V2NOTE = "Trusts: the harness' own generators/oracles, the package tokenizer for white-box token sequences (premise checks and spans), Go's runtime. Corpus files are read from /repo/v2/assets at run time; the build compiles /repo's working tree."
 MANIFEST_TEXT = {
+    "C01": {
+        "level": "Generated-input search with an exact constructive oracle: hundreds (quick) to thousands (thorough) of plantings of 1-4 corpus documents in verified out-of-vocabulary context across thresholds 0.7-1.0, full/small corpora and user-added documents, plus an enumeration of every embedded document (x every menu threshold in thorough). Each planted copy must be reported with Confidence exactly 1.0, exact token span and lines. Bounded exploration.",
+        "note": _V2NOTE + " Layouts where two copies share a physical line are excluded by construction (known finding F18).",
+        "technique": "property-based testing (rapid) with constructive oracle + exhaustive enumeration over corpus documents",
+    },
+    "C02": {
+        "level": "Generated-input search against an independent reference: every reported match is re-scored with a separately written banded word-level Levenshtein (itself self-tested against the quadratic algorithm); the bound Confidence <= 1 - L/|K| is compared exactly and is tight in ~98% of matches, so off-by-one errors in counting, trimming or the divisor are visible. Bounded exploration.",
+        "note": _V2NOTE,
+        "technique": "property-based testing (rapid) with a reference-implementation oracle (independent Levenshtein)",
+    },
+    "C03": {
+        "level": "Generated-input search with a validity predicate: the statement's well-formedness conditions are evaluated on every result for arbitrary/hostile inputs, thresholds across (0,1] and corpora with awkward names. Bounded exploration.",
+        "note": _V2NOTE,
+        "technique": "property-based testing (rapid) with a validity-predicate oracle",
+    },
+    "C07": {
+        "level": "Metamorphic property testing: thousands of (X, prefix, suffix) triples; Match(P+X+S) must equal Match(X) shifted, for exact, noisy, truncated and multi-license X; the premise is verified at token level so no case relies on hopeful construction. Bounded exploration.",
+        "note": _V2NOTE,
+        "technique": "metamorphic property-based testing (rapid)",
+    },
     "C20": {
         "level": "Model-based property testing: thousands of generated operation sequences per container are interpreted against reference models (map / list) with the full invariant checked after every step, plus exhaustive enumeration of all subset pairs x binary operations and of all short action sequences. Bounded exploration, not proof; exhaustive within the enumerated scopes.",
         "note": "Trusts the reference models written in the harness and Go's map/sort. Nil receivers only where documented. Aliasing is detected by an immediate sentinel probe and by the per-step invariant.",
